@@ -198,9 +198,9 @@ TypeOK ==
 
 (* cond: the queue is exactly the pending waiters, in arrival order *)
 QueueIsPending == IsCond => /\ Range(q) = Pending
-                            /\ \A i, j \in 1..Len(q) : i < j => q[i] < q[j]
+                            /\ \A i \in 1..(Len(q) - 1) : q[i] < q[i + 1]
 (* cond: wakeups happen in arrival order, each True waiter was woken exactly once *)
-WokenInArrivalOrder == \A i, j \in 1..Len(woken) : i < j => woken[i] < woken[j]
+WokenInArrivalOrder == \A i \in 1..(Len(woken) - 1) : woken[i] < woken[i + 1]
 WokenAreTrue == Range(woken) = {w \in Waiters : st[w] = "true"}
 
 NewlyTrue == {w \in Waiters : st[w] = "pending" /\ st'[w] = "true"}
